@@ -354,7 +354,8 @@ impl<'s> Lexer<'s> {
     pub fn f_string_part(
         &mut self,
     ) -> Option<(FStringToken<'s>, Range<usize>)> {
-        let mut chars = self.input.chars().enumerate();
+        // We need byte offsets (not character counts) to split the input
+        let mut chars = self.input.char_indices();
         'outer: while let Some((i, c)) = chars.next() {
             match c {
                 '\\' => {
